@@ -64,8 +64,16 @@ fn value_matches(got: &Multi, want: &BTreeMap<String, Q>, inexact: bool) -> bool
     for k in keys {
         let g = got.get(k).copied().unwrap_or(Q::ZERO);
         let w = want.get(k).copied().unwrap_or(Q::ZERO);
-        let Some(diff) = g.sub(w) else { return false };
         let f = |q: Q| (q.n as f64 / q.d as f64).abs();
+        let Some(diff) = g.sub(w) else {
+            // the exact difference does not fit the model's i128 rationals (a 28-place decimal against
+            // a fraction with an 11-digit denominator): compare in floating point
+            let (a, b) = (g.n as f64 / g.d as f64, w.n as f64 / w.d as f64);
+            if (a - b).abs() > err * 16.0 + b.abs().max(a.abs()) * 1e-14 + 1e-27 {
+                return false;
+            }
+            continue;
+        };
         let bound = err * 16.0 + f(w).max(f(g)) * 1e-27 + 1e-27;
         if f(diff) > bound {
             return false;
